@@ -144,6 +144,19 @@ CHECKS["C05"] = {
     "note": "Trusted: FKinSpace (C02); parameters documented as transforms are transforms; num_dof >= 1.",
 }
 
+CHECKS["C06"] = {
+    "engine": "sa",
+    "technique": "typestate for derived-field freshness (body screws) + structural pairing rules (kernel/screw-list roles, statics sibling table, index agreement, accumulation counting)",
+    "design_ref": "DESIGN.md section 4 C06",
+    "text": ("Decides the structural necessary conditions of 'the Jacobians belong to the current kinematic model and statics is "
+             "the transpose map': the body screw list is re-derived after every write of home pose / space screws on all paths "
+             "of all public methods (so a tool change or move can never leave a self-consistent Jacobian of another model); "
+             "each variant pairs the right screw list with the right kernel and change of frame; the four statics methods form "
+             "the (space|body)x(forward|inverse) table with J^T and pinv(J^T); link-mass statics adds exactly one weight per "
+             "link with one index for cg/mass/pose/prefix Jacobian. Derivative-of-FK equalities are not decided."),
+    "note": "Trusted: JacobianSpace/JacobianBody/Adjoint (C01/C02). The length contract of _link_masses (n+1, index 0 = base link, as the URDF loader produces) is an input contract, not checked.",
+}
+
 _PENDING = "rule module not yet built in this round (see DESIGN.md section 4 for the planned static rules)"
 for _i in range(1, 21):
     _p = "C%02d" % _i
